@@ -47,6 +47,57 @@ Proof.
 Qed.
 
 (* ------------------------------------------------------------------------- *)
+(** * The advertised limit is only changed by SetConnectionIDLimit *)
+
+Lemma rps_adv rpt st : m_advlimit (retire_probing_stage rpt st) = m_advlimit st.
+Proof. unfold retire_probing_stage. destruct (rpt =? 0); [reflexivity|]. destruct (retire_probing_below _ _ _); reflexivity. Qed.
+
+Lemma rqs_adv rpt st : m_advlimit (retire_queue_stage rpt st) = m_advlimit st.
+Proof. unfold retire_queue_stage. destruct (_ <? rpt); [|reflexivity]. destruct (retire_queue_below _ _ _); reflexivity. Qed.
+
+Lemma update_adv d st st' : update_conn_id d st = Some st' -> m_advlimit st' = m_advlimit st.
+Proof.
+  unfold update_conn_id. destruct (m_closed st); [discriminate|]. destruct (m_queue st); [discriminate|].
+  intros H; inversion H; reflexivity.
+Qed.
+
+Lemma add_inner_adv seq rpt c tok d st st' r :
+  mgr_add_inner seq rpt c tok d st = (st', r) -> m_advlimit st' = m_advlimit st.
+Proof.
+  unfold mgr_add_inner. destruct (m_acid st); [intros H; inversion H; reflexivity|].
+  destruct (pfind seq (m_probing st)); [destruct (_ && _); intros H; inversion H; reflexivity|].
+  destruct (negb _ && _); [intros H; inversion H; reflexivity|].
+  set (st2 := retire_queue_stage rpt (retire_probing_stage rpt st)).
+  assert (Hc : m_advlimit st2 = m_advlimit st) by (unfold st2; rewrite rqs_adv, rps_adv; reflexivity).
+  destruct (seq =? m_active st2); [intros H; inversion H; subst; assumption|].
+  destruct (add_conn_id _ _) as [q'|]; [|intros H; inversion H; subst; assumption].
+  destruct (m_active (set_queue st2 q') <? rpt).
+  - destruct (update_conn_id d (set_queue st2 q')) as [st4|] eqn:E4; intros H; inversion H; subst; [|assumption].
+    rewrite (update_adv _ _ _ E4). assumption.
+  - intros H; inversion H; subst. assumption.
+Qed.
+
+Definition sets_limit (o : mop) : option Z := match o with MSetLimit n => Some n | _ => None end.
+
+(** the limit the manager enforces follows the last SetConnectionIDLimit call *)
+Theorem mgr_step_adv o st :
+  m_advlimit (fst (mgr_step o st)) = match sets_limit o with Some n => n | None => m_advlimit st end.
+Proof.
+  destruct o as [seq rpt c tok draw|c tok|draw|k| | |c|tok|id|id|tok|n]; cbn [mgr_step sets_limit]; try reflexivity.
+  - unfold mgr_add. destruct (mgr_add_inner seq rpt c tok draw st) as [st' r] eqn:E.
+    apply add_inner_adv in E. destruct r; simpl; try exact E. destruct (_ <=? _); simpl; exact E.
+  - unfold mgr_add_pref. destruct (add_conn_id _ _); reflexivity.
+  - unfold mgr_get. destruct (m_closed st); [reflexivity|]. destruct (should_update st); [|reflexivity].
+    destruct (update_conn_id draw st) as [st'|] eqn:E; [|reflexivity]. simpl. apply (update_adv _ _ _ E).
+  - unfold mgr_change_initial. destruct (_ =? _); reflexivity.
+  - unfold mgr_set_token. destruct (m_closed st); [reflexivity|]. destruct (_ =? _); reflexivity.
+  - unfold mgr_path_get. destruct (m_closed st); [reflexivity|]. destruct (m_acid st); [reflexivity|].
+    destruct (plookup id (m_probing st)); [reflexivity|]. destruct (m_queue st); reflexivity.
+  - unfold mgr_path_retire. destruct (m_closed st); [reflexivity|]. destruct (m_acid st); [reflexivity|].
+    destruct (plookup id (m_probing st)); reflexivity.
+Qed.
+
+(* ------------------------------------------------------------------------- *)
 (** * (d) reset tokens: registered == in use, none left after Close *)
 
 (** The connection never uses the manager after Close and learns the peer's
@@ -471,11 +522,11 @@ Qed.
 Lemma core_path_get st id f r :
   core st -> m_queue st = f :: r ->
   core (mkM r (n_seq f) (m_probing st ++ [(id, f)]) (m_hsdone st) (m_active st) (m_hretired st)
-            (m_acid st) (m_atok st) (m_since st) (m_ppc st) (m_closed st) (EvAddTok (n_tok f) :: m_log st)).
+            (m_acid st) (m_atok st) (m_since st) (m_ppc st) (m_closed st) (EvAddTok (n_tok f) :: m_log st) (m_advlimit st)).
 Proof.
   intros [C1 C2 C3 C4 C5] Hq. rewrite Hq in C1, C2. simpl in C1, C2. destruct C1 as [Hlt Hs].
   destruct (C2 (n_seq f) (or_introl eq_refl)) as [Haf Hhf].
-  set (st' := mkM _ _ _ _ _ _ _ _ _ _ _ _).
+  set (st' := mkM _ _ _ _ _ _ _ _ _ _ _ _ _).
   constructor.
   - simpl. assumption.
   - simpl. intros q Hin. split; [apply C2; right; assumption|apply Hlt, Hin].
@@ -495,7 +546,7 @@ Lemma core_path_retire st id e :
   core st -> pids_ok st -> plookup id (m_probing st) = Some e ->
   core (mkM (m_queue st) (m_hprobe st) (pdelete id (m_probing st)) (m_hsdone st) (m_active st) (m_hretired st)
             (m_acid st) (m_atok st) (m_since st) (m_ppc st) (m_closed st)
-            (EvRemTok (n_tok e) :: EvRetire (n_seq e) :: m_log st)).
+            (EvRemTok (n_tok e) :: EvRetire (n_seq e) :: m_log st) (m_advlimit st)).
 Proof.
   intros [C1 C2 C3 C4 C5] Hp El.
   destruct (pdelete_cnt _ _ _ Hp El) as [Hs _].
@@ -544,14 +595,15 @@ Proof.
   - unfold mgr_path_get. rewrite Hcl. destruct (m_acid st); simpl; [assumption|].
     destruct (plookup id (m_probing st)); simpl; [assumption|]. destruct (m_queue st) as [|f r] eqn:Eq; simpl; [assumption|].
     apply (core_ext (mkM r (n_seq f) (m_probing st ++ [(id, f)]) (m_hsdone st) (m_active st) (m_hretired st)
-            (m_acid st) (m_atok st) (m_since st) (m_ppc st) (m_closed st) (EvAddTok (n_tok f) :: m_log st)));
+            (m_acid st) (m_atok st) (m_since st) (m_ppc st) (m_closed st) (EvAddTok (n_tok f) :: m_log st) (m_advlimit st)));
       [reflexivity|reflexivity|reflexivity|reflexivity|reflexivity|intros; reflexivity|apply core_path_get; assumption].
   - unfold mgr_path_retire. rewrite Hcl. destruct (m_acid st); simpl; [assumption|].
     destruct (plookup id (m_probing st)) as [e|] eqn:El; simpl; [|assumption].
     apply (core_ext (mkM (m_queue st) (m_hprobe st) (pdelete id (m_probing st)) (m_hsdone st) (m_active st) (m_hretired st)
             (m_acid st) (m_atok st) (m_since st) (m_ppc st) (m_closed st)
-            (EvRemTok (n_tok e) :: EvRetire (n_seq e) :: m_log st)));
+            (EvRemTok (n_tok e) :: EvRetire (n_seq e) :: m_log st) (m_advlimit st)));
       [reflexivity|reflexivity|reflexivity|reflexivity|reflexivity|intros; reflexivity|apply core_path_retire; assumption].
+  - simpl. (apply (core_ext st); [reflexivity|reflexivity|reflexivity|reflexivity|reflexivity|intros; reflexivity|exact Hcore]).
   (* highestRetired <= activeSequenceNumber *)
   - unfold mgr_add in *.
     destruct (mgr_add_inner seq rpt c tok draw st) as [st' r] eqn:E.
@@ -690,26 +742,27 @@ Qed.
     connection IDs in use, a NEW_CONNECTION_ID frame
     - is never answered with PROTOCOL_VIOLATION and never panics;
     - is refused with CONNECTION_ID_LIMIT_ERROR only if afterwards more than
-      MaxActiveConnectionIDs sequence numbers are held, all of them distinct, received and
+      lim = max(MaxActiveConnectionIDs, advertised limit) sequence numbers are held, all of them distinct, received and
       not reported retired - so never while the peer's own count of active IDs (any
       duplicate-free list [L] containing what is held) is within the limit;
-    - is accepted only if active + queue fit into MaxActiveConnectionIDs;
+    - is accepted only if active + queue fit into lim (the first ID beyond is refused);
     - gives another error only for conflicting contents of a queued or probing sequence number. *)
 Theorem accept_within_limit init ops st seq rpt c tok d :
   reachP op_ok init ops st -> m_acid st <> [] -> 0 <= rpt <= seq ->
   let st' := fst (mgr_add seq rpt c tok d st) in
   let r := snd (mgr_add seq rpt c tok d st) in
+  let lim := Z.max MaxActiveConnectionIDs (m_advlimit st) in
   r <> RProto /\ r <> RPanic /\
-  (r = RLimit -> MaxActiveConnectionIDs < zlength (held st')) /\
-  (r = ROk -> 1 + zlength (m_queue st') <= MaxActiveConnectionIDs) /\
+  (r = RLimit -> lim < zlength (held st')) /\
+  (r = ROk -> 1 + zlength (m_queue st') <= lim) /\
   (accepted r -> NoDup (held st') /\
                  forall s, In s (held st') -> retc s (m_log st') = 0 /\
                                               (s = 0 \/ 1 <= frames_for s (MAdd seq rpt c tok d :: ops))) /\
-  (forall L, NoDup L -> incl (held st') L -> zlength L <= MaxActiveConnectionIDs -> r <> RLimit) /\
+  (forall L, NoDup L -> incl (held st') L -> zlength L <= lim -> r <> RLimit) /\
   (r = ROther -> exists x, (In x (m_queue st) \/ exists id, In (id, x) (m_probing st)) /\
                            n_seq x = seq /\ cid_eqb (n_cid x) c && (n_tok x =? tok) = false).
 Proof.
-  intros Hr Hacid Hv st' r.
+  intros Hr Hacid Hv st' r lim.
   pose proof (reach_minv _ _ _ Hr) as Hinv.
   assert (Hany : reachP any_op init (MAdd seq rpt c tok d :: ops) st').
   { replace st' with (fst (mgr_step (MAdd seq rpt c tok d) st)).
@@ -717,6 +770,7 @@ Proof.
     - unfold st'. cbn [mgr_step]. destruct (mgr_add seq rpt c tok d st); reflexivity. }
   unfold st', r in *. clear st' r. unfold mgr_add in *.
   destruct (mgr_add_inner seq rpt c tok d st) as [st1 r1] eqn:E.
+  pose proof (add_inner_adv _ _ _ _ _ _ _ _ E) as Hadv. rewrite Hadv in *. fold lim in Hany |- *.
   destruct (add_inner_inv _ _ _ _ _ _ _ _ Hinv Hv E) as (Hnp & Hnproto & Hok).
   specialize (Hnproto Hacid).
   assert (Hheld : r1 = ROk -> NoDup (held st1) /\
@@ -724,7 +778,7 @@ Proof.
   { intros ->. destruct (Hok eq_refl) as [Hcore _]. destruct (core_held_once _ Hcore) as [Hnd Hh].
     split; [assumption|]. intros s Hin. split; [apply Hh; assumption|].
     assert (Hany1 : reachP any_op init (MAdd seq rpt c tok d :: ops) st1).
-    { destruct (MaxActiveConnectionIDs <=? zlength (m_queue st1)); exact Hany. }
+    { destruct (lim <=? zlength (m_queue st1)); exact Hany. }
     pose proof (phi_history _ _ _ s Hany1) as [_ Hhi].
     assert (1 <= phi st1 s) by (apply phi_tracked; left; assumption).
     destruct (Z.eqb_spec 0 s) as [<-|Hne]; [left; reflexivity|right]. cbn [b2z] in Hhi. lia. }
@@ -732,7 +786,7 @@ Proof.
   destruct r1; try (exfalso; destruct Hcls as [Hx|[Hx|[Hx|Hx]]]; (discriminate Hx || congruence)).
   - (* inner ROk *)
     destruct (Hheld eq_refl) as [Hnd Hh].
-    destruct (Z.leb_spec MaxActiveConnectionIDs (zlength (m_queue st1))) as [Hge|Hlt]; cbn [fst snd].
+    destruct (Z.leb_spec lim (zlength (m_queue st1))) as [Hge|Hlt]; cbn [fst snd].
     + repeat split; try discriminate.
       * intros _. rewrite zlength_held. pose proof (zlength_nonneg (m_probing st1)). lia.
       * exact Hnd.
